@@ -249,6 +249,9 @@ func c04Child(in json.RawMessage) (interface{}, error) {
 		begin = rg.Sched.HoldNth(2+int(cs.Seed%3), func(p mon.Point) bool { return p.Role == "persister" && p.Name == "load.end" && p.Kind == ".seg" })
 		end = rg.Sched.HoldNth(2+int(cs.Seed%3), func(p mon.Point) bool { return p.Role == "persister" && p.Name == "persist.begin" && p.Kind == ".snp" })
 	}
+	// Writer.Close landing in the middle of a merge (the shutdown paths of merger / persister release
+	// snapshots and segments on their own): armed after the last batch, see below
+	var closeHold *mon.Hold
 	gateDone := false
 	extraVer := 0
 	tryGate := func(batchInFlight bool) {
@@ -332,8 +335,20 @@ func c04Child(in json.RawMessage) (interface{}, error) {
 			acquire(bi + 1)
 		}
 		if bi == 12 && !cs.Unsafe && !openReaderHeld {
-			// an OpenReader reader on the directory the writer keeps cleaning
-			if rd, err := bluge.OpenReader(fsConfig(cs.Dir, fsOpts{Loader: cs.Loader, Merge: "none", SegVer: cs.SegVer}, nil)); err == nil {
+			// an OpenReader reader on the directory the writer keeps cleaning. OpenReader lists the snapshot
+			// files and then loads them; the writer's clean-up can remove every listed file in between (the
+			// property speaks of a Reader once obtained, not of obtaining one), so a failed open is retried
+			// and, if it keeps failing, only counted
+			var rd *bluge.Reader
+			var err error
+			for attempt := 0; attempt < 6; attempt++ {
+				rd, err = bluge.OpenReader(fsConfig(cs.Dir, fsOpts{Loader: cs.Loader, Merge: "none", SegVer: cs.SegVer}, nil))
+				if err == nil {
+					break
+				}
+				res.Steps["openreader-beside-writer-retried"]++
+			}
+			if err == nil {
 				d, derr := dumpReader(rd)
 				if derr != nil || fmt.Sprint(d) != fmt.Sprint(modelDump(cur)) {
 					add("openreader-not-the-acknowledged-state", fmt.Sprintf("OpenReader after %d acknowledged batches shows %v (err %v), expected %v", bi+1, d, derr, modelDump(cur)))
@@ -343,7 +358,7 @@ func c04Child(in json.RawMessage) (interface{}, error) {
 					openReaderHeld = true
 				}
 			} else {
-				add("openreader-fails-beside-writer", err.Error())
+				res.Steps["openreader-beside-writer-gave-up"]++
 			}
 		}
 		if bi%4 == 3 {
@@ -354,10 +369,63 @@ func c04Child(in json.RawMessage) (interface{}, error) {
 		begin.Release()
 		end.Release()
 	}
-	waitQuietRig(w, true)
-	recheck("quiescence")
-	if err := w.Close(); err != nil {
-		add("close-error", err.Error())
+	if cs.Gate == "close-in-merge" {
+		// two more batches wake the merger; it is held where a file merge begins (batches never wait for
+		// the merger), a reader of the current root is taken (the snapshot the merger works on, unless
+		// another introduction slipped in), Close is started, and only then is the merger let go: it
+		// finds the writer closing in the middle of its merge
+		closeHold = rg.Sched.HoldNth(0, func(p mon.Point) bool { return p.Name == "merge.begin" && p.Role == "merger" })
+		for k := 0; k < 2; k++ {
+			extraVer++
+			id := fmt.Sprintf("k%d", r.Intn(7))
+			eb := &model.Batch{Ops: []model.Op{{Kind: "update", ID: id, Doc: &model.Doc{ID: id, V: fmt.Sprintf("late-%d", extraVer), Text: map[string]string{"t": "late"}}}}}
+			if err := w.Batch(eb.ToBluge()); err != nil {
+				add("batch-error", err.Error())
+			} else {
+				cur = cur.Apply(eb)
+				res.Batches = append(res.Batches, eb)
+			}
+			if closeHold.Reached(0) {
+				break
+			}
+		}
+		for _, h := range held {
+			if h.kind == "current-root" {
+				h.kind = "superseded"
+			}
+		}
+		if closeHold.Reached(3 * time.Second) {
+			res.GateReached = true
+			acquire(-2)
+			recheck("before-close-in-merge")
+			closed := make(chan error, 1)
+			go func() { closed <- w.Close() }()
+			time.Sleep(20 * time.Millisecond) // Close has signalled the background goroutines by now
+			closeHold.Release()
+			select {
+			case err := <-closed:
+				if err != nil {
+					add("close-error", err.Error())
+				}
+			case <-time.After(60 * time.Second):
+				add("close-does-not-return", "Writer.Close started while a merge was held at its beginning did not return within 60 s after the merge was let go")
+				return res, nil
+			}
+			res.Steps["close-while-merge-in-flight"]++
+		} else {
+			closeHold.Release()
+			waitQuietRig(w, true)
+			recheck("quiescence")
+			if err := w.Close(); err != nil {
+				add("close-error", err.Error())
+			}
+		}
+	} else {
+		waitQuietRig(w, true)
+		recheck("quiescence")
+		if err := w.Close(); err != nil {
+			add("close-error", err.Error())
+		}
 	}
 	for _, h := range held {
 		if h.kind != "openreader" {
@@ -382,14 +450,14 @@ func clipStr(s string, n int) string {
 }
 
 func runC04(c *vk.Ctx) {
-	c.Rule("in child processes: a merge-happy writer with seeded jitter runs a generated history (26 batches, documents of all field kinds); readers are acquired after batches 4, 10, 17 (their content must equal the abstract index at that moment) plus an OpenReader reader beside the live writer, and all are kept open; after every 4th batch, around one scripted background step (segment removal / merge introduction / persist swap: fingerprint, release the step, fingerprint), at quiescence and after Writer.Close every held reader is fingerprinted twice back to back: count, all documents with stored fields, document values through sorts and aggregations, every field's dictionary, 24 generated queries; " +
+	c.Rule("in child processes: a merge-happy writer with seeded jitter runs a generated history (26 batches, documents of all field kinds); readers are acquired after batches 4, 10, 17 (their content must equal the abstract index at that moment) plus an OpenReader reader beside the live writer, and all are kept open; after every 4th batch, around one scripted background step (segment removal / merge introduction / persist swap: fingerprint, release the step, fingerprint), at quiescence and after Writer.Close - in one fifth of the runs a Close that is started while the merger is held at the beginning of a file merge, with a reader of the root it works on - every held reader is fingerprinted twice back to back: count, all documents with stored fields, document values through sorts and aggregations, every field's dictionary, 24 generated queries; " +
 		"the plug-in wrapper reports any use of a segment after its file handle was closed. distinct non-trivial = distinct (reader kind, step kind) pairs where the step really lay between two fingerprints")
 	c.Assume("a dead child is a fault of reader use", "the fingerprint is deterministic for an immutable view (scores included)")
-	n := c.Pick(24, 1500)
+	n := c.Pick(30, 1500)
 	var cases []interface{}
-	gates := []string{"remove", "merge-intro", "persist-swap", "none"}
+	gates := []string{"remove", "merge-intro", "persist-swap", "none", "close-in-merge"}
 	for i := 0; i < n; i++ {
-		cases = append(cases, c04Case{Seed: vk.SubSeed(c.Seed, fmt.Sprintf("c04-%d", i)), Dir: c.TempDir("c04-"), SegVer: 1 /* ice v2 shares one stored-field buffer per segment (known finding of C15): readers beside a running merge are judged on v1 */, Loader: []string{"mmap", "mmap", "nommap"}[i%3], Gate: gates[i%4], Unsafe: i%7 == 6})
+		cases = append(cases, c04Case{Seed: vk.SubSeed(c.Seed, fmt.Sprintf("c04-%d", i)), Dir: c.TempDir("c04-"), SegVer: 1 /* ice v2 shares one stored-field buffer per segment (known finding of C15): readers beside a running merge are judged on v1 */, Loader: []string{"mmap", "mmap", "nommap"}[i%3], Gate: gates[i%5], Unsafe: i%7 == 6})
 	}
 	results := vk.RunChildren(c.Scratch(), "c04run", cases, vk.ChildOpts{PerChild: 2, Parallel: runtime.NumCPU(), CaseTimeout: 120 * time.Second, RlimitMB: 4096})
 	for i, res := range results {
@@ -431,4 +499,5 @@ func runC04(c *vk.Ctx) {
 	c.Require("gated_steps_realised_remove", 2)
 	c.Require("gated_steps_realised_merge-intro", 2)
 	c.Require("gated_steps_realised_persist-swap", 2)
+	c.Require("step_close-while-merge-in-flight", 1)
 }
